@@ -174,6 +174,35 @@ def oracle(c):
         if not is_canon(s, "ACGU" if c.get("m") == "rna" else "ACGT") or len(s) < 3:
             return None
         return frames_spec(c["id"], t)
+    if k == "app_translate_seqs":
+        seqs = c["seqs"]
+        if not all(is_canon(s) for s in seqs) or any(len(s) % 3 for s in seqs) or not all(seqs):
+            return None
+        out = []
+        for trim in (False, True):
+            peps = [stop_spec(c["id"], s, trim, False, False, pad="-" if c["aligned"] else "") for s in seqs]
+            out.append(REJECT if REJECT in peps else peps)
+        return out
+    if k == "app_select":
+        seqs, fr = c["seqs"], c["frame"] - 1
+        if not all(is_canon(s) for s in seqs):
+            return None
+        out = []
+        for trim in (False, True):
+            keep = []
+            for i, s in enumerate(seqs):
+                ncod = (len(s) - fr) // 3
+                w = s[fr:fr + 3 * ncod] if ncod > 0 else ""
+                p = translate_spec(c["id"], w)
+                if "*" in p[:-1] or not w:
+                    if not w and s:  # nothing to translate: the app keeps an empty sequence or drops it -- not specified
+                        return None
+                    continue
+                if trim and p.endswith("*"):
+                    w = w[:-3]
+                keep.append([f"s{i}", w])
+            out.append(keep)
+        return out
     if k == "gettrans":
         kind, seqs = c["kind"], c["seqs"]
         if not all(is_canon(s) for s in seqs):
@@ -277,7 +306,7 @@ def coq_terms(c) -> list:
     x = stop handling of empty sequences / alignments (C12-2, C12-3).  The d variants are only
     evaluated from 256 codons on (below, theorem translate_dtype_pinned_guarded says they coincide)."""
     k = c["k"]
-    if c.get("nomodel"):
+    if c.get("nomodel") or k in ("app_translate_seqs", "app_select"):
         return []
     if k == "getitem":
         return [("", f"CGetItem {V(c['v'])} {zlit(c['id'])} {zstr(c['codon'])}")]
@@ -530,6 +559,15 @@ def exhaustive_block(tier, widen=False):
                  ["AAATGATAA", "AAA---TAA"], ["TAATAA"], ["AAATGATAA"]):
         for kind in (4, 7, 2):
             cases.append(dict(k="gettrans", kind=kind, id=1, seqs=rows, block="stops"))
+    for seqs in (["AAATAA", "CCCGGG"], ["AAACCC", "CCCGGG"], ["AAATAA", "CCCTGA"], ["TAAAAA", "CCCGGG"], ["AAATGATAA", "CCCGGGAAA"],
+                 ["AAA"], ["ATGAAATAA"]):
+        for aligned in (False, True):
+            for cid in (1, 2):
+                cases.append(dict(k="app_translate_seqs", id=cid, seqs=seqs, aligned=aligned, block="stops"))
+    for seqs in (["AATTAAATGTGA", "TATGACTAA"], ["ATGAAATAA", "CATGAAATAAC", "CCATGTAAAAA"], ["ATGAAACCCT", "TAAATG"], ["ATGAGATGA"]):
+        for fr in (1, 2, 3):
+            for cid in (1, 2):
+                cases.append(dict(k="app_select", id=cid, seqs=seqs, frame=fr, block="stops"))
     for s in ("AAA---TAA", "AAATAA---", "A-ATAA", "AAA-", "---", "AAATAA-", "AAAT-A"):
         for kind in (0, 1):
             cases.append(dict(k="gettrans", kind=kind, id=1, seqs=[s], block="stops"))
@@ -622,6 +660,15 @@ def random_block(rng, n, maxlen):
             s = rand_seq(rng, maxlen, mode=0.0)
             if len(s) >= 3:
                 cases.append(dict(k="app_frames", id=cid, s=s, block="random"))
+        elif r < 0.61:
+            nseq = rng.randint(1, 3)
+            if rng.random() < 0.5:
+                nc = rng.randint(1, 6)
+                seqs = [rand_cds(rng, cid, ncod=nc)[:3 * nc] for _ in range(nseq)]
+                cases.append(dict(k="app_translate_seqs", id=cid, seqs=seqs, aligned=rng.random() < 0.5, block="random"))
+            else:
+                seqs = [rng.choice(["", "A", "CG"]) + rand_cds(rng, cid, ncod=rng.randint(1, 6)) for _ in range(nseq)]
+                cases.append(dict(k="app_select", id=cid, seqs=seqs, frame=rng.choice([1, 2, 3]), block="random"))
         elif r < 0.75:
             kind = rng.choice([0, 1, 2, 3, 4, 5, 6, 7])
             if kind in (0, 6):
@@ -693,6 +740,10 @@ def classify(c, bad_idx=None):
         return f"{k}:{c['v']}:{c['m']}"
     if k == "what":
         return f"what_ambiguity:old:{c['m']}"
+    if k == "app_translate_seqs":
+        return f"app.translate_seqs:{'alignment' if c['aligned'] else 'collection'}:trim={bad_idx[0] if bad_idx else ''}"
+    if k == "app_select":
+        return f"app.select_translatable:frame:trim={bad_idx[0] if bad_idx else ''}"
     return k
 
 
@@ -880,6 +931,8 @@ def nontrivial(c) -> bool:
         return True
     if k == "getitem":
         return len(c["codon"]) == 3
+    if k in ("app_translate_seqs", "app_select"):
+        return any(len(s) >= 3 for s in c["seqs"])
     if k == "gettrans":
         return any("TAA" in s or "TGA" in s or "TAG" in s or "AGA" in s for s in c["seqs"])
     if k in ("complement", "rc", "rc2", "seqrc"):
